@@ -427,6 +427,22 @@ def r10_history_siblings(idx, r):
         r.require(okc, f"{name}:unset-entries-become-None", f, node=conv[0].stmt if conv else loop,
                   msg="a stored column flagged `nones` must be converted back with replaceNonsenseWithNones (as the sibling reader and Database._readParams do): otherwise the history returns "
                       "the placeholder (NaN / a huge integer) where the object had None")
+    # the stored location of an object with several positions (pin lattices) is a LIST of index tuples: the location column is ragged and
+    # cannot go through a plain np.array(...) (numpy refuses inhomogeneous shapes)
+    for name in ("getHistories", "getHistoriesByLocation"):
+        f = idx.method(DB + ".Database", name)
+        env = single_assign_env(f.node)
+        locnames = {s_.attr for s_ in iter_stores(f.node) if isinstance(s_.node, ast.Name) and s_.value is not None and "layout.location" in norm(s_.value)}
+        locnames |= {norm(c.func.value) for c in iter_calls(f.node) if call_attr(c) == "append" and c.args and "layout.location" in norm(c.args[0]) and isinstance(c.func, ast.Attribute)}
+        bad = []
+        for c in iter_calls(f.node):
+            if dotted(c.func) in ("np.array", "np.asarray", "numpy.array") and c.args and not any(k.arg == "dtype" and "object" in norm(k.value).lower() or k.arg == "dtype" and norm(k.value) in ("'O'", "np.dtype('O')") for k in c.keywords):
+                a0 = norm(c.args[0])
+                if "layout.location" in a0 or a0 in locnames:
+                    bad.append(c)
+        r.require(not bad, f"{name}:location-column-may-be-ragged", f, node=bad[0] if bad else None,
+                  msg=f"`{norm(bad[0])[:60] if bad else ''}` builds a plain array from stored locations: as soon as one object of the layout has several positions (a pin lattice) numpy raises "
+                      "'inhomogeneous shape', so the location history of ANY object of such a reactor is unavailable")
     # the interface dispatch and the tracker's own queries
     g = idx.method(DBI, "getHistories")
     byloc = [c for c in iter_calls(g.node) if dotted(c.func) == "self.database.getHistoriesByLocation"]
@@ -502,7 +518,7 @@ def run(idx, chk):
     chk.run_rule("R06.7", "every name used in safeMove/safeCopy and the database modules resolves", lambda r: r7_names(idx, r), floor=60, necessary="a NameError on the file-move path loses the database")
     chk.run_rule("R06.9", "after a load the global serial counter is at least the maximum serial number of the whole layout", lambda r: r9_identity_floor(idx, r), floor=1,
                  necessary="'the same object, matched by identity': identities handed out after a load must not collide with stored ones")
-    chk.run_rule("R06.10", "both history readers read every step's own layout and turn stored unset markers back into None; the tracker queries by identity", lambda r: r10_history_siblings(idx, r), floor=7,
+    chk.run_rule("R06.10", "both history readers read every step's own layout and turn stored unset markers back into None; the tracker queries by identity", lambda r: r10_history_siblings(idx, r), floor=9,
                  necessary="a parameter history returns for each step the value (or None/default if unset) that the same object had at that step")
     chk.run_rule("R06.11", "without a named file, the database being written is preferred over the reload database", lambda r: r11_load_preference(idx, r), floor=2,
                  necessary="loading a snapshot returns the state as of that write")
